@@ -46,6 +46,8 @@ def run(ctx):
             ctx.count("history: call that fails half-way")
         o = common.load_tree(d)
         info = {"tree": d}
+        if rng.random() < 0.15:
+            ctx.count("nodes of user-defined subclasses (mixin first)", trees.user_subclasses(o, rng))
         try:
             m = I.naming.auto_name(o)
         except Exception as e:
@@ -97,6 +99,40 @@ def run(ctx):
                     {k: tuple(v) for k, v in m2.items()} != {v: p for p, v in named2.items()}:
                 ctx.fail("after an edit and a second auto_name the names are not distinct names of exactly the operands, "
                          "mapped to their paths", dict(info, renamed=out2, map=[[k, list(v)] for k, v in m2.items()]))
+    # ---- a tree is named, then rewritten by an application's own transformer (public visitor API: clones through
+    # generic_visit, phrases dropped from operations, an operation left with one operand replaced by it), and the
+    # RESULT is named: it is a new tree, nothing of the first naming may show in it (seeded C15-G: clones that keep
+    # whatever attributes were put on the original)
+    class Collapse(I.visitor.TreeTransformer):
+        def visit_base_operation(self, node, context):
+            new, = super().generic_visit(node, context)
+            kids = [c for c in new.children if not isinstance(c, I.tree.Phrase)] or list(new.children)[:1]
+            if len(kids) == 1:
+                yield kids[0]
+            else:
+                new.children = kids
+                yield new
+    for d in cases[:ctx.budget(120, 2000)]:
+        if not any(n["c"].endswith("Operation") and n["ch"] for _, n in common.tree_nodes(d)):
+            continue
+        o = common.load_tree(d)
+        try:
+            I.naming.auto_name(o)
+            o2 = Collapse().visit(o)
+            m2 = I.naming.auto_name(o2)
+        except Exception:
+            continue
+        out2 = common.dump_tree(o2)
+        ctx.count("named, rewritten by a user transformer, the result named")
+        named2 = {p: n["n"] for p, n in common.tree_nodes(out2) if n["n"] is not None}
+        exp2 = [p + (i,) for p, n in common.tree_nodes(out2) if n["c"].endswith("Operation") for i in range(len(n["ch"]))]
+        if not exp2:
+            exp2 = [()]
+        if sorted(named2) != sorted(exp2) or len(set(named2.values())) != len(named2) or \
+                {k: tuple(v) for k, v in m2.items()} != {v: p for p, v in named2.items()}:
+            ctx.fail("the result of a user transformer applied to a named tree, once named itself, does not carry "
+                     "distinct names on exactly the operands, mapped to their paths",
+                     {"tree": d, "renamed": out2, "map": [[k, list(v)] for k, v in m2.items()]})
     if ctx.model_ok:
         for r, a, e in zip(reqs, common.ask_model(reqs), exp):
             if a != e:
